@@ -3,12 +3,12 @@
 import json, os, sys, subprocess
 ROOT = os.path.dirname(os.path.dirname(os.path.abspath(__file__)))
 sys.path.insert(0, os.path.join(ROOT, 'tools'))
-from props import PROPS, NOT_APPLICABLE, HOOK_COMMITS
+from props import PROPS, NOT_APPLICABLE, HOOK_COMMITS, CLAIMED
 
 all_ids = [json.loads(l)['id'] for l in open(os.path.join(ROOT, 'properties.jsonl'))]
 checks = []
 for pid in all_ids:
-    if pid not in PROPS:
+    if pid not in PROPS or pid not in CLAIMED:
         continue
     c = PROPS[pid]
     checks.append({
@@ -22,7 +22,7 @@ for pid in all_ids:
         'level_note': c['level_note'],
         'technique': c.get('technique', 'Coq 8.16 theorem over an executable Gallina model + per-run differential correspondence (vm_compute) against the Rust implementation'),
     })
-na = [{'property_id': p, 'reason': NOT_APPLICABLE.get(p, 'check not built yet in this session (no technique switch; see DESIGN.md §10)')} for p in all_ids if p not in PROPS]
+na = [{'property_id': p, 'reason': NOT_APPLICABLE.get(p, 'check not built yet in this session (no technique switch; see DESIGN.md §10)')} for p in all_ids if p not in PROPS or p not in CLAIMED]
 m = {
     'version': 1,
     'setup_cmd': 'sh tools/setup.sh',
